@@ -531,6 +531,8 @@ func checkJournal(w workload, res result, seen map[[32]byte]bool, opts crashfs.O
 }
 
 type replay struct {
+	TreeCfg  *treeCfg `json:"tree_cfg,omitempty"`
+	TreePath []int    `json:"tree_path,omitempty"`
 	Workload string   `json:"workload"`
 	Point    int      `json:"point"`
 	Desc     string   `json:"desc"`
@@ -547,9 +549,10 @@ func nonDefault(e *vsched.Exec) (r []string) {
 }
 
 func main() {
-	c = lib.New("C03", "fault_enumeration", 120*time.Second, 25*time.Minute)
+	c = lib.New("C03", "fault_enumeration", 170*time.Second, 25*time.Minute)
 	baseGoroutines = runtime.NumGoroutine()
 	c.Assume("persistence model: per-file prefix of un-fsynced writes + torn next write; directory entry durable once the file or its parent directory was fsynced; remove/rename atomic and ordered")
+	c.Assume("tree stage: additionally, un-fsynced writes of one file may reach the disk out of order (every prefix with one earlier write missing); a recovered tree whose Open or sweep does not return within 60 s counts as a hang")
 	c.Assume("workloads run under the cooperative scheduler with the default schedule, so the journal is reproducible")
 	opts := crashfs.Options{Torn: true, MaxPerPoint: 4096}
 	depth2 = true
@@ -568,6 +571,10 @@ func main() {
 	if c.ReplayPath != "" {
 		var r replay
 		c.LoadReplay(&r)
+		if r.TreeCfg != nil {
+			treeJournal(*r.TreeCfg, r.TreePath, &treeReplay{*r.TreeCfg, r.TreePath, r.Point, r.Desc})
+			c.Finish("replay", false)
+		}
 		for _, w := range workloads {
 			if w.name == r.Workload {
 				res := record(w)
@@ -591,6 +598,42 @@ func main() {
 	}
 	var summaries []any
 	seen := map[string]map[[32]byte]bool{}
+	fullDeadline := c.Deadline
+	// ---- tree stage: recovery of the index on its own (25% of the budget)
+	if v := os.Getenv("C03_TREEJ"); v != "" { // debugging aid: "cfgname:op,op,..." prints the journal of one tree sequence
+		parts := strings.SplitN(v, ":", 2)
+		var path []int
+		for _, x := range strings.Split(parts[1], ",") {
+			var n int
+			fmt.Sscan(x, &n)
+			path = append(path, n)
+		}
+		for _, cf := range treeCfgs {
+			if cf.Name == parts[0] {
+				ops, live, _, fail := treeRecord(cf, path)
+				for i, o := range ops {
+					fmt.Println("JOURNAL", i, o.Kind, strings.TrimPrefix(o.Path, live), o.Off, len(o.Data), o.Note)
+				}
+				fmt.Println("failure:", fail)
+			}
+		}
+		os.Exit(0)
+	}
+	if os.Getenv("VERIF_ONLY") == "" || os.Getenv("VERIF_ONLY") == "tree" {
+		if os.Getenv("VERIF_ONLY") == "" {
+			c.Deadline = c.Start.Add(fullDeadline.Sub(c.Start) * 25 / 100)
+		}
+		md, cfgs := 4, treeCfgs[:4]
+		if c.Thorough() {
+			md, cfgs = 6, treeCfgs
+		}
+		sm := treeStage(md, cfgs)
+		summaries = append(summaries, sm)
+		bs, _ := json.Marshal(sm)
+		fmt.Println(" ", string(bs))
+		c.Deadline = fullDeadline
+	}
+	stage2 := time.Now()
 	// ---- concurrent committers: every schedule (preemption bound 1) of two committers on the synced store gives its
 	// own journal; the first N distinct journals are crash-enumerated
 	if os.Getenv("VERIF_ONLY") == "" || os.Getenv("VERIF_ONLY") == "concurrent2" {
@@ -686,9 +729,9 @@ func main() {
 			os.Exit(0)
 		}
 		// at most 60% of the time budget; the sequential workloads follow
-		concDeadline := c.Start.Add(c.Deadline.Sub(c.Start) * 60 / 100)
+		concDeadline := stage2.Add(c.Deadline.Sub(stage2) * 60 / 100)
 		// stage 1 (35% of the budget): explore schedules and collect the distinct journals
-		exploreDeadline := c.Start.Add(c.Deadline.Sub(c.Start) * 35 / 100)
+		exploreDeadline := stage2.Add(c.Deadline.Sub(stage2) * 35 / 100)
 		type pendingJournal struct {
 			r                 result
 			devs, policy, seq int
@@ -778,7 +821,6 @@ func main() {
 		fmt.Println(" ", string(bs))
 		sched.Cleanup()
 	}
-	fullDeadline := c.Deadline
 	for wi, w := range wls {
 		seen[w.name] = map[[32]byte]bool{}
 		// fair share: a workload gets at most its part of what is left (a large journal must not starve the others)
@@ -824,8 +866,15 @@ func main() {
 func tornFiles(desc string) string {
 	var t []string
 	for _, f := range strings.Fields(desc) {
-		if i := strings.LastIndex(f, "+"); i >= 0 && f[i+1:] != "0" {
-			t = append(t, f[:strings.Index(f, ":")])
+		if i := strings.LastIndex(f, "+"); i >= 0 {
+			tail := f[i+1:]
+			if h := strings.Index(tail, "-w"); h >= 0 {
+				t = append(t, f[:strings.Index(f, ":")]+"(hole)")
+				tail = tail[:h]
+			}
+			if tail != "0" {
+				t = append(t, f[:strings.Index(f, ":")])
+			}
 		}
 	}
 	if len(t) == 0 {
